@@ -232,3 +232,71 @@ pub fn fmt_entry(e: &Option<Entry>) -> String {
         ),
     }
 }
+
+/// Run, on ONE cursor, every program of length 1..=max_len that begins with an absolute
+/// positioning call (seek_to_first / seek_to_last / seek) followed by arbitrary calls, one after
+/// the other, comparing with the reference after EVERY call.  The concatenation is itself one
+/// long legal program, so state left behind by an earlier program is part of what is checked.
+/// Returns (programs, calls, first failure with the calls made since the last absolute move).
+pub fn check_chained_programs<C: Cursor + ?Sized>(
+    c: &mut C,
+    reference: &RefCursor,
+    moves: &[Move],
+    max_len: usize,
+    compare_ts: bool,
+    outcomes: &mut std::collections::HashSet<u64>,
+) -> (u64, u64, Option<ProgramFailure>) {
+    let abs: Vec<usize> = moves
+        .iter()
+        .enumerate()
+        .filter(|(_, m)| matches!(m, Move::First | Move::Last | Move::Seek(_)))
+        .map(|(i, _)| i)
+        .collect();
+    let mut r = reference.clone();
+    r.idx = -1;
+    let mut programs = 0u64;
+    let mut calls = 0u64;
+    let mut previous: Vec<Move> = vec![];
+    for len in 1..=max_len {
+        for &first in abs.iter() {
+            let mut rest = vec![0usize; len - 1];
+            loop {
+                programs += 1;
+                let mut prog: Vec<Move> = vec![moves[first].clone()];
+                prog.extend(rest.iter().map(|&i| moves[i].clone()));
+                for (n, m) in prog.iter().enumerate() {
+                    calls += 1;
+                    let res = m.apply(c);
+                    r.apply(m);
+                    let expected = r.current().cloned();
+                    let got: Result<Option<Entry>, String> = match res {
+                        Err(e) => Err(format!("{e}")),
+                        Ok(()) => Ok(observe(c)),
+                    };
+                    let same = match &got {
+                        Ok(g) => match (g, &expected) {
+                            (None, None) => true,
+                            (Some(a), Some(b)) => {
+                                a.key == b.key && a.value == b.value && (!compare_ts || a.ts == b.ts)
+                            }
+                            _ => false,
+                        },
+                        Err(_) => false,
+                    };
+                    outcomes.insert(vcore::stable_hash(&(expected.as_ref().map(|e| (&e.key, &e.value)), r.idx)));
+                    if !same {
+                        // report the previous program too: its leftovers may matter
+                        let mut program = previous.clone();
+                        program.extend(prog[..=n].iter().cloned());
+                        return (programs, calls, Some(ProgramFailure { program, expected, got }));
+                    }
+                }
+                previous = prog;
+                if rest.is_empty() || !bump(&mut rest, moves.len()) {
+                    break;
+                }
+            }
+        }
+    }
+    (programs, calls, None)
+}
